@@ -53,6 +53,23 @@ def path_cases(maxdepth=3):
                             yield {"bundles": bundles, "bi": bi}
 
 
+def name_cases():
+    """names with underscores at the seams of the flattened name (the usual spelling for Python keywords: in_, from_): the documented name is the plain
+    '_'-join of the path, so in_ + p flattens to in__p"""
+    for iname in ("bi", "in_", "b__"):
+        for sname in ("sub", "sub_", "s_u"):
+            for lname in ("x", "x_", "x_y"):
+                for port in (True, False):
+                    for depth in (1, 2):
+                        kind = "input" if port else "plain"
+                        if depth == 1:
+                            bundles = {"B1": {"sigs": [leaf(lname, kind, 1)], "roles": ROLES, "subs": []}}
+                        else:
+                            bundles = {"B1": {"sigs": [], "roles": ROLES, "subs": [{"n": sname, "of": "B2", "flipped": False, "flipstyle": "no", "role": ""}]},
+                                       "B2": {"sigs": [leaf(lname, kind, 1)], "roles": ROLES, "subs": []}}
+                        yield {"bundles": bundles, "bi": {"n": iname, "of": "B1", "port": port, "flipped": False, "flipstyle": "no", "role": ""}}
+
+
 def tree_cases(rnd, n):
     """random trees: depth <= 3, fan-out <= 3 (signals + sub-bundles), every leaf kind, flips and roles at every level"""
     out = []
@@ -151,6 +168,7 @@ def run(tier, seed, replay_file=None):
     else:
         cases = list(path_cases(3))
         o.extra["single_path_cases"] = len(cases)
+        cases = list(name_cases()) + cases
         cases += tree_cases(rnd, 1500 if tier == "quick" else 15000)
     # a flipped instance of a bundle with non-port leaves is not flippable (documented): such cases may be rejected; keep only flippable flips
     evs = pool_map(run_case, list(enumerate(cases)), chunksize=64)
